@@ -2436,8 +2436,13 @@ FROM (
             if ds:
                 # Normalize column order across all branches to prevent
                 # positional type mismatches in UNION ALL.
+                # The statement's output structure only gives the order when the union is the
+                # whole statement; as an operand (union(...)[rename ...]) it has other components.
                 output_ds = self._get_output_dataset()
-                order_ds = output_ds if output_ds else ds
+                same_components = output_ds is not None and set(output_ds.components) == set(
+                    ds.components
+                )
+                order_ds = output_ds if output_ds and same_components else ds
                 col_order = list(order_ds.components.keys())
                 ordered_cols = ", ".join(quote_name(c) for c in col_order)
                 ordered_sqls = [f"SELECT {ordered_cols} FROM ({sql}) AS _ord" for sql in child_sqls]
